@@ -904,6 +904,44 @@ fn builtin_upper() -> Vec<Scenario> {
     add("u-put-put-global", s1(), false, 2, vec![g(0, 0, None), g(0, 0, None)], vec![vec![pp(0, 0, 0, 0, None)], vec![pp(1, 0, 0, 0, None)]]);
     // the last allocated frames of a tree are freed: the tree becomes entirely free (class reset)
     add("u-putT-get0", s1(), false, 2, vec![g(to, 0, None)], vec![vec![pp(0, 0, to, 0, None)], vec![g(0, 0, Some(0))]]);
+    // --- the window between Trees::sync and Locals::put in get_local: the slot's counter is too small, the global entry
+    // of the still reserved tree holds frames (freed without a slot); another thread clears / replaces / demotes the slot
+    // after the sync took the global frames, so the write-back fails and has to be undone (trees.put)
+    add("u-sync-drain", s1(), false, 2, vec![g(to, 0, Some(0)), pp(0, 0, ho, 0, None)], vec![vec![g(0, 0, Some(0))], vec![UDrain]]);
+    add(
+        "u-sync-sharedslot",
+        s1(),
+        false,
+        2,
+        vec![g(to, 0, Some(0)), pp(0, 0, ho, 0, None)],
+        vec![vec![g(0, 0, Some(0))], vec![g(0, 0, Some(0))]],
+    );
+    add(
+        "u-sync-put-drain",
+        s1(),
+        false,
+        2,
+        vec![g(to, 0, Some(0))],
+        vec![vec![g(0, 0, Some(0))], vec![pp(0, 0, 0, 0, None), UDrain]],
+    );
+    // class 1 holds the reservation (counter TF/2 - 1, one frame in the global entry), the other tree is taken:
+    // the class-0 get demotes the reservation while the class-1 get of order TREE_ORDER - 1 syncs
+    add(
+        "u-sync-demote",
+        s1(),
+        false,
+        2,
+        vec![g(to, 0, None), g(0, 1, Some(0)), g(to - 1, 1, Some(0)), pp(1, 0, 0, 1, None)],
+        vec![vec![g(to - 1, 1, Some(0))], vec![g(0, 0, Some(0))]],
+    );
+    add(
+        "u-mix3-sync-drain-get",
+        s1(),
+        false,
+        3,
+        vec![g(to, 0, Some(0)), pp(0, 0, ho, 0, None)],
+        vec![vec![g(0, 0, Some(0))], vec![UDrain], vec![g(0, 0, Some(0))]],
+    );
     // --- drains
     add("u-get-drain", s1(), false, 2, vec![g(0, 0, Some(0))], vec![vec![g(0, 0, Some(0))], vec![UDrain]]);
     add("u-drain-drain", s1(), false, 2, vec![g(0, 0, Some(0)), g(0, 1, Some(0))], vec![vec![UDrain], vec![UDrain]]);
@@ -1479,11 +1517,15 @@ impl<'a> Exec<'a> {
         }
         let frames = self.scn.frames;
         let is_held = |held: &Vec<(usize, usize)>, f: usize| held.iter().any(|&(b, o)| b <= f && f < b + (1 << o));
-        let free_frame = (0..frames).rev().find(|&f| !is_held(&self.held, f));
-        let held_frame = (0..frames).find(|&f| is_held(&self.held, f));
-        if let Some(f) = free_frame {
-            self.post_call(CallSpec::UGet { frame: Some(f), order: 0, class: c0, local: Some(0) });
+        // one free frame of every tree (a tree whose counters lost frames refuses it)
+        for t in 0..frames.div_ceil(TREE_FRAMES) {
+            let hi = ((t + 1) * TREE_FRAMES).min(frames);
+            let free_frame = (t * TREE_FRAMES..hi).rev().find(|&f| !is_held(&self.held, f));
+            if let Some(f) = free_frame {
+                self.post_call(CallSpec::UGet { frame: Some(f), order: 0, class: c0, local: if t % 2 == 1 { Some(0) } else { None } });
+            }
         }
+        let held_frame = (0..frames).find(|&f| is_held(&self.held, f));
         if let Some(f) = held_frame {
             self.post_call(CallSpec::UGet { frame: Some(f), order: 0, class: c0, local: None });
         }
